@@ -117,6 +117,10 @@ theorem l1_is_a_norm {n : Nat} {sig : Nat → ℚ} (X Y : Cl n sig) (q : ℚ) :
     (L1.l1 X = 0 → X = 0) ∧ L1.l1 (X + Y) ≤ L1.l1 X + L1.l1 Y ∧ L1.l1 (q • X) = |q| * L1.l1 X ∧ L1.l1 (1 : Cl n sig) = 1 :=
   ⟨L1.l1_eq_zero, L1.l1_add_le X Y, L1.l1_smul q X, L1.l1_one⟩
 
+/-- … while the largest coefficient (the quantity `exp` scaled by before fix 08bddc0) is not: `X = 1 + e1` in Cl(1) has coefficients of absolute value 1 and
+`X·X` has the scalar coefficient 2 -/
+theorem max_coefficient_is_not_submultiplicative : (∀ c, |L1.Xw c| ≤ 1) ∧ (L1.Xw * L1.Xw) fzero = 2 := L1.max_coeff_not_submultiplicative
+
 /-- **the truncations of the exponential series of any multivector form a Cauchy sequence with the scalar series' modulus**:
 `‖exp_M(X) − exp_N(X)‖₁ ≤ Σ_{N ≤ k < M} ‖X‖₁^k/k!` -/
 theorem exp_truncations_cauchy {n : Nat} {sig : Nat → ℚ} (hsig : ∀ i, |sig i| ≤ 1) (X : Cl n sig) (N M : Nat) (h : N ≤ M) :
